@@ -232,6 +232,28 @@ class Roles:
                                 and isinstance(m.func.value.value, ast.Name) \
                                 and m.func.value.value.id in (n.target.id, outer):
                             return m.func.value.attr, self._builder_of(f)
+        # the linking loop has another shape: the reverse attribute is still the one the queries name next to
+        # `required` when they call the step helper, and the builder the scheduler method that writes it
+        lits = set()
+        for f in self.sched.methods.values():
+            for n in walk_local(f.node):
+                if isinstance(n, ast.Call) and isinstance(n.func, ast.Attribute) and n.args \
+                        and isinstance(n.args[0], ast.Constant) and isinstance(n.args[0].value, str) \
+                        and n.func.attr in self.sched.methods and n.args[0].value.isidentifier():
+                    lits.add(n.args[0].value)
+        inits = set()
+        ini = self.jobbase.methods.get('__init__')
+        if ini is not None:
+            inits = {t.attr for n in walk_local(ini.node) if isinstance(n, ast.Assign) for t in n.targets
+                     if isinstance(t, ast.Attribute)}
+        cands = sorted((lits & inits) - {'required'})
+        if len(cands) == 1:
+            attr = cands[0]
+            writers = [f for f in self.sched.methods.values() if f.name != '__init__' and any(
+                isinstance(n, ast.Attribute) and n.attr == attr and isinstance(n.ctx, ast.Store)
+                for n in walk_local(f.node))]
+            if len(writers) >= 1:
+                return attr, writers[0]
         raise AnalysisError("relation builder (for r in j.required: r.<attr>.add(j)) not found")
 
     def _builder_of(self, f):
